@@ -1,4 +1,3 @@
-import functools as ft
 import inspect
 import json
 from typing import Any, Callable, Dict, Iterable, List, Optional
@@ -46,11 +45,9 @@ class PydanticValidator(base.BaseValidator):
         """
 
         signature = self.signature(method, tuple(exclude))
-        try:
-            schema = self.build_validation_schema(signature)
-        except TypeError:
-            # the signature is not hashable (a parameter has an unhashable default value) so it can't be cached
-            schema = self.build_validation_schema.__wrapped__(self, signature)
+        # not cached by signature: signatures compare equal when their defaults do (1 == True == 1.0)
+        # so methods would get each other's default values, besides a default value may be unhashable
+        schema = self.build_validation_schema(signature)
 
         params_model = pydantic.create_model(method.__name__, **schema, __config__=self._model_config)
 
@@ -64,7 +61,6 @@ class PydanticValidator(base.BaseValidator):
 
         return {attr: getattr(obj, attr) for attr in obj.model_fields} if self._coerce else bound_params.arguments
 
-    @ft.lru_cache(maxsize=None)
     def build_validation_schema(self, signature: inspect.Signature) -> Dict[str, Any]:
         """
         Builds pydantic model based validation schema from method signature.
